@@ -702,7 +702,17 @@ def count_copies_upload(addr, name, content, family=socket.AF_INET):
         for blk in range(1, n + 1):
             s.sendto(N.enc_data(blk, content[(blk - 1) * 512:blk * 512]), peer)
             s.settimeout(1.0)
-            k, f, src = N.recv(s, tr)
+            while True:
+                k, f, src = N.recv(s, tr)
+                if k == "ACK" and f["blk"] == blk - 1:
+                    # a copy of the previous ACK that was still on its way (copies are sent 1 ms apart; on a loaded
+                    # machine the last one can arrive after the counting window): it counts for that block
+                    if blk - 1 == 0:
+                        first += 1
+                    else:
+                        copies[blk - 1] += 1
+                    continue
+                break
             if k != "ACK" or f["blk"] != blk:
                 problems.append(f"expected ACK {blk}, got {k} {f}")
                 break
